@@ -93,6 +93,12 @@ impl From<Option<VcfGenotype>> for genotype::Result {
         match genotype {
             Some(genotype) => match &genotype[..] {
                 [a, b] => match (a.position(), b.position()) {
+                    // Only alleles 0 (reference) and 1 (first alternate) can be counted;
+                    // any higher allele index makes the genotype multiallelic, also when the
+                    // indices happen to sum to at most two (e.g. 0/2)
+                    (Some(a), Some(b)) if a > 1 || b > 1 => {
+                        genotype::Result::Skipped(genotype::Skipped::Multiallelic)
+                    }
                     (Some(a), Some(b)) => match Genotype::try_from_raw(a + b) {
                         Some(genotype) => genotype::Result::Genotype(genotype),
                         None => genotype::Result::Skipped(genotype::Skipped::Multiallelic),
